@@ -31,7 +31,7 @@ import (
 	"verifharness/gen/pdfw"
 )
 
-var reuseCalls = []string{"Text", "Markdown", "TextX", "MarkdownX", "Document", "TextH", "MarkdownF",
+var reuseCalls = []string{"Text", "Markdown", "TextX", "MarkdownX", "Document", "TextH", "MarkdownF", "TextSel",
 	// side views of the same parsed state (only where the reader has them): called by reflection, compared as JSON
 	"@Tables", "@ModelTables", "@Lists", "@ModelLists", "@Metadata", "@HeaderTexts", "@FooterTexts", "@Chapters", "@SheetNames"}
 
@@ -206,6 +206,9 @@ func callOn(kind string, r any, call string) (out string) {
 		}
 	case *xlsx.Reader:
 		o := xlsx.ExtractOptions{ExcludeHeaders: h, ExcludeFooters: f}
+		if call == "TextSel" { // the last sheet only
+			return res(x.TextWithOptions(xlsx.ExtractOptions{Sheets: []int{x.SheetCount() - 1}}))
+		}
 		switch {
 		case call == "Document":
 			return doc(x.Document())
@@ -220,6 +223,9 @@ func callOn(kind string, r any, call string) (out string) {
 		}
 	case *pptx.Reader:
 		o := pptx.ExtractOptions{ExcludeHeaders: h, ExcludeFooters: f, IncludeNotes: true, IncludeTitles: true}
+		if call == "TextSel" { // the last slide only
+			return res(x.TextWithOptions(pptx.ExtractOptions{IncludeTitles: true, SlideNumbers: []int{x.SlideCount() - 1}}))
+		}
 		switch {
 		case call == "Document":
 			return doc(x.Document())
